@@ -19,6 +19,15 @@ def encodeEncoderLifecycleInit : List String := ["Get", "Reset(w)"]
 /-- encode.go `responseWriter.Close`: the same for `Close` -/
 def encodeEncoderLifecycleClose : List String := ["Close", "Reset(nil)", "Put"]
 
+/-- encode.go `type responseWriter struct`: field names in source order (embedded field by type name) -/
+def encodeResponseWriterFields : List String := ["ResponseWriter", "encodingName", "w", "config", "statusCode", "wroteHeader", "isConnect"]
+
+/-- encode.go: every place a `responseWriter` value comes into being (`var` = zero value, literal, `new`, or taken from a call such as a pool's `Get`) -/
+def encodeResponseWriterOrigins : List String := ["openResponseWriter: var"]
+
+/-- encode.go `initResponseWriter`: the fields of `rw` it assigns, in source order -/
+def encodeInitResponseWriterAssigns : List String := ["ResponseWriter", "encodingName", "config", "isConnect"]
+
 /-- encode/caddyfile.go `UnmarshalCaddyfile`: the formats used when the directive names none -/
 def encodeCaddyfileDefaultFormats : List String := ["zstd", "gzip"]
 
